@@ -719,6 +719,12 @@ func (fr *Frame) exec(reach string, st *State) (string, *State, []Val) {
 	// every call-site clause must have found its call: a clause that matches nothing checks nothing
 	if fr.spec != nil {
 		for _, c := range append(append([]*Clause{}, fr.spec.Asserts...), fr.spec.Assumes...) {
+			if strings.HasPrefix(c.Key, "store ") && !fr.matched[c] {
+				e.unsupported = append(e.unsupported, fmt.Sprintf("%s: %s %q [%s] matches no store (%s:%d)", fr.prefix, c.Kind, c.Key, labelOr(c), c.File, c.Line))
+			}
+			if c.Key == "send" && !fr.matched[c] {
+				e.unsupported = append(e.unsupported, fmt.Sprintf("%s: %s %q [%s] matches no channel send (%s:%d)", fr.prefix, c.Kind, c.Key, labelOr(c), c.File, c.Line))
+			}
 			if strings.HasPrefix(c.Key, "return#") && !fr.matched[c] {
 				e.unsupported = append(e.unsupported, fmt.Sprintf("%s: %s %q [%s] matches no reachable return statement (%s:%d)", fr.prefix, c.Kind, c.Key, labelOr(c), c.File, c.Line))
 			}
@@ -1105,7 +1111,8 @@ func (fr *Frame) step(in ssa.Instruction, incoming map[*ssa.BasicBlock][]edgeIn,
 		e.set(cur.st, dom, fmt.Sprintf("(store %s %s (store (select %s %s) %s true))", d, m.T, d, m.T, k.T))
 		e.set(cur.st, val, fmt.Sprintf("(store %s %s (store (select %s %s) %s %s))", vv, m.T, vv, m.T, k.T, v.T))
 	case *ssa.Send:
-		// abstracted
+		// the send itself is abstracted; `assert-at send` clauses are checked here
+		fr.assertAtSend(fr.val(x.Chan), fr.val(x.X))
 	case ssa.Value:
 		fr.vals[x] = fr.value(x)
 	default:
@@ -1232,6 +1239,29 @@ func (fr *Frame) atReturn(vs []Val) {
 			continue
 		}
 		fr.obligeAt(fr.cur.reach, "assert-at", "return["+labelOr(c)+"]", t, c.Src)
+	}
+}
+
+// assert-at send <label>: e   - checked at every channel send (plain or in a select) of the function;
+// `chan` and `value` name the channel and the value sent
+func (fr *Frame) assertAtSend(ch, v Val) {
+	if fr.spec == nil {
+		return
+	}
+	for _, c := range fr.spec.Asserts {
+		if c.Key != "send" {
+			continue
+		}
+		fr.matched[c] = true
+		env := fr.envAt(fr.block, fr.idx, fr.cur.st, nil)
+		env.names["chan"] = ch
+		env.names["value"] = v
+		t, err := env.Goal(c.Expr)
+		if err != nil {
+			fr.e.unsupported = append(fr.e.unsupported, fmt.Sprintf("%s: assert-at send %s:%d: %v", fr.prefix, c.File, c.Line, err))
+			continue
+		}
+		fr.obligeAt(fr.cur.reach, "assert-at", "send["+labelOr(c)+"]", t, c.Src)
 	}
 }
 
@@ -1525,6 +1555,11 @@ func (fr *Frame) value(v ssa.Value) Val {
 		fr.boundRef(vv)
 		return Val{Tuple: []Val{{T: ok, Ty: types.Typ[types.Bool]}, k, vv}, Ty: x.Type()}
 	case *ssa.Select:
+		for _, st := range x.States {
+			if st.Dir == types.SendOnly && st.Send != nil {
+				fr.assertAtSend(fr.val(st.Chan), fr.val(st.Send))
+			}
+		}
 		e.assume("select statements choose nondeterministically; received values are arbitrary (" + fr.prefix + ")")
 		return fr.freshVal("select", x.Type())
 	case *ssa.SliceToArrayPointer, *ssa.MultiConvert:
